@@ -861,8 +861,11 @@ PPL::Grid::is_discrete() const {
     return true;
   }
   // Search for lines in the generator system.
+  // (A line with all zero coefficients can be left behind by the
+  // removal of space dimensions.)
   for (dimension_type row = gen_sys.num_rows(); row-- > 1; ) {
-    if (gen_sys[row].is_line()) {
+    if (gen_sys[row].is_line()
+        && !gen_sys[row].all_homogeneous_terms_are_zero()) {
       return false;
     }
   }
